@@ -18,6 +18,7 @@ import (
 	"github.com/nuetzliches/hookaido/internal/config"
 	"github.com/nuetzliches/hookaido/internal/queue"
 	"github.com/nuetzliches/hookaido/internal/verifkit"
+	"pgregory.net/rapid"
 )
 
 // ---------------------------------------------------------------------------------------
@@ -181,9 +182,9 @@ func pBuildDispatchRoutes(compiled config.Compiled) []RouteConfig {
 // Hashes of the whitespace-stripped source of the three app/run.go fragments the copies above
 // mirror (tree 6ce2c25 and descendants). A change there must be carried over by hand.
 const (
-	pHashMapEgressRules      = "a0d5dd3ab3b50fd1"
-	pHashBuildDispatchRoutes = "b8aa0c9d5d7c8e6f"
-	pHashPolicyLiteral       = "d3b4d70a8b0c1f22"
+	pHashMapEgressRules      = "14d6606b6276d59c"
+	pHashBuildDispatchRoutes = "c2ee1685a2a32e12"
+	pHashPolicyLiteral       = "ca378874626435bc"
 )
 
 var (
@@ -303,4 +304,36 @@ func (h *pStoreHandle) close() {
 func pEmit(prop, test string, c any, out *pOutcome) {
 	verifkit.Emit(verifkit.Record{Prop: prop, Test: test, Hash: verifkit.Hash(c), NonTrivial: out.NonTriv,
 		Labels: out.labels(), Known: out.Known, Skipped: out.Skipped}, c)
+}
+
+// ---------------------------------------------------------------------------------------
+// Calibrated draws. rapid's IntRange/SampledFrom favour small values heavily (bit-length
+// uniform); pools would be sampled almost only at their first elements. pIdx keeps rapid's
+// shrinking (small raw values map to themselves, so a shrunk case uses the first pool entries)
+// but spreads everything else evenly with a multiplicative hash.
+// ---------------------------------------------------------------------------------------
+
+func pIdx(t *rapid.T, label string, n int) int {
+	if n <= 1 {
+		return 0
+	}
+	x := rapid.Uint64().Draw(t, label)
+	if x < uint64(n) {
+		return int(x)
+	}
+	return int(((x * 0x9E3779B97F4A7C15) >> 33) % uint64(n))
+}
+
+func pFrom[T any](t *rapid.T, label string, pool []T) T {
+	return pool[pIdx(t, label, len(pool))]
+}
+
+// pChance is true with probability about num/den; it shrinks to false.
+func pChance(t *rapid.T, label string, num, den int) bool {
+	return pIdx(t, label, den) >= den-num
+}
+
+// pRange draws an int in [lo, hi] about evenly; it shrinks to lo.
+func pRange(t *rapid.T, label string, lo, hi int) int {
+	return lo + pIdx(t, label, hi-lo+1)
 }
